@@ -119,6 +119,7 @@ def run_episode(args):
                     empty_text=profile.get("empty_text", 0.0))
         g.boundary_rate = profile.get("boundary_rate", g.boundary_rate)
         w.serial_noise = random.Random(seed ^ 0x5EA1) if profile.get("serial_noise") else None
+        w.forge = random.Random(seed ^ 0xF06E) if profile.get("forge_prefix") else None
         stop_on = profile.get("stop_on_violation", True)
         known = set(profile.get("known_signatures", ()))
         stop_props = set(profile["stop_props"]) if profile.get("stop_props") else None
